@@ -246,14 +246,20 @@ def _short_circuit(prog, body, local, depth):
     true, the facts dominating the non-constant assignment hold as well (and symmetrically for `||` chains that are false)."""
     if local is None or depth > 3:
         return []
-    ds = [d for d in body.defs().get(local, []) if d[2] == "assign" and not d[3]["pl"]["p"]]
-    if len(ds) < 2 or len(ds) != len(body.defs().get(local, [])):
+    alld = body.defs().get(local, [])
+    ds = [d for d in alld if d[2] == "assign" and not d[3]["pl"]["p"]]
+    calls = [d for d in alld if d[2] == "call"]
+    if len(alld) < 2 or len(ds) + len(calls) != len(alld):
         return []
     consts = [d for d in ds if d[3]["rv"]["k"] == "use" and d[3]["rv"]["o"].get("k") == "const"]
-    rest = [d for d in ds if d not in consts]
+    rest = [d for d in ds if d not in consts] + calls
     if len(rest) != 1 or not consts or any(d[3]["rv"]["o"].get("v") is not False for d in consts):
         return []
     out = list(bool_facts(prog, body, rest[0][0], depth + 1))
+    if rest[0][2] == "call":
+        t = rest[0][3]
+        out.append((("call", t.get("resolved") or t.get("callee"), [core.describe(prog, body, a) for a in t["args"]], rest[0][0]), True))
+        return out
     rv = rest[0][3]["rv"]
     out.append((core.describe_rv(prog, body, rv) if rv["k"] != "use" else core.describe(prog, body, rv["o"]), True))
     if rv["k"] == "use" and core.op_local(rv["o"]) is not None:
